@@ -72,6 +72,7 @@ type Txn struct {
 	Res  string `json:"res"` // "acked" | "pending" (written to the binlog, never acknowledged) | "refused"
 	T    int64  `json:"t"`
 	Ackers []string `json:"ackers,omitempty"`
+	Late   bool     `json:"late,omitempty"` // acknowledged when semi-sync was switched off under the waiting commit
 }
 
 func pair(a, b string) [2]string {
@@ -117,6 +118,7 @@ func (w *World) Revive(host string) {
 	n.Alive, n.Hang = true, false
 	n.ReadOnly, n.SuperReadOnly, n.Offline = true, true, true
 	n.SemiMaster, n.SemiSlave, n.WaitingAck = false, false, false
+	n.PendingTx = nil
 	n.StartupUnix = time.Now().Unix()
 	if n.Repl != nil {
 		n.Repl.IO, n.Repl.SQL = true, true // replication threads start with the server
@@ -191,6 +193,9 @@ func (w *World) ClientWrite(host string) Txn {
 	if n.SemiMaster && len(ackers) < n.WaitCount {
 		t.Res = "pending"
 		n.WaitingAck = true
+		if w.NetTimeout > 0 {
+			n.PendingTx = append(n.PendingTx, len(w.Acked)) // index of the record appended below
+		}
 	} else {
 		t.Res = "acked"
 		if n.SemiMaster {
@@ -257,6 +262,7 @@ type MyNode struct {
 	Killed                           []int
 	SrcLostAt                        time.Time // when the replication link to the source stopped working (NetTimeout > 0)
 	Slow                             int       // > 0: replication moves only every Slow-th Replicate() round (lagging replica)
+	PendingTx                        []int     // indexes into World.Acked of client commits waiting for a semi-sync ACK (sessions still connected)
 }
 
 var (
@@ -305,6 +311,7 @@ func (w *World) Kill(host string) {
 	var cs []net.Conn
 	if n != nil {
 		n.Alive = false
+		n.PendingTx = nil // the waiting sessions die with the server: their clients never get an answer
 		for c, busy := range n.conns {
 			if !busy { // a statement in flight is answered first; the connection is cut right after (see serve)
 				cs = append(cs, c)
@@ -899,7 +906,8 @@ func (w *World) apply(n *MyNode, op, arg string) (cols []string, rows [][]string
 	case "is_readonly":
 		return one([]string{"ReadOnly", "SuperReadOnly"}, []string{b2s(n.ReadOnly), b2s(n.SuperReadOnly)})
 	case "set_ro_super", "set_ro_nosuper":
-		if n.StuckUntilSSDisable {
+		// SET GLOBAL read_only waits for the commit lock held by the sessions stuck waiting for a semi-sync ACK
+		if n.StuckUntilSSDisable || (w.NetTimeout > 0 && len(n.PendingTx) > 0) {
 			return nil, nil, false, 1205
 		}
 		if n.StuckRO != 0 {
@@ -972,6 +980,15 @@ func (w *World) apply(n *MyNode, op, arg string) (cols []string, rows [][]string
 		n.SemiMaster, n.SemiSlave = false, false
 		n.WaitingAck = false
 		n.StuckUntilSSDisable = false
+		// switching semi-sync off releases the commits that wait for an acknowledgement: the sessions that are still
+		// connected get OK, i.e. the client is told the transaction is committed
+		for _, i := range n.PendingTx {
+			if i < len(w.Acked) && w.Acked[i].Res == "pending" {
+				w.Acked[i].Res = "acked"
+				w.Acked[i].Late = true
+			}
+		}
+		n.PendingTx = nil
 	case "ss_wait_count":
 		n.WaitCount, _ = strconv.Atoi(arg)
 	case "events":
@@ -997,6 +1014,8 @@ func (w *World) apply(n *MyNode, op, arg string) (cols []string, rows [][]string
 		return []string{"ID"}, rs, true, 0
 	case "set_offline":
 		n.Offline = true
+		// offline_mode disconnects the client sessions: a commit that was waiting is never acknowledged to its client
+		n.PendingTx = nil
 	case "set_online":
 		n.Offline = false
 	case "get_offline":
